@@ -75,6 +75,8 @@ structure Sess where
   expired : Bool
   /-- ghost: generation of the fabric this session was authenticated for (0 = none) -/
   gen : Nat
+  /-- `Session::reserved`: owned by a handshake whose last message is not acknowledged yet -/
+  reserved : Bool := false
 deriving Repr, DecidableEq, Inhabited
 
 structure Resum where
@@ -102,6 +104,8 @@ structure Armed where
   flags : Flags
   timeout : Nat
   armedAt : Nat
+  /-- `ArmedCtx::deferred`: a fabric-scoped write of the fabric `fab` was accepted but not stored -/
+  deferred : Bool := false
 deriving Repr, DecidableEq, Inhabited
 
 structure Window where
@@ -140,6 +144,8 @@ structure Node where
   now : Nat := 0
   nextSess : Nat := 0
   nextGen : Nat := 1
+  /-- session ids of the `ReservedSession` guards that are still alive (handshakes in their last leg) -/
+  pending : List Nat := []
 deriving Repr, DecidableEq, Inhabited
 
 inductive Op
@@ -161,6 +167,14 @@ inductive Op
   | complete (s : Nat)
   | rmfab (s idx : Nat)
   | revoke (s : Nat)
+  /-- write of the `Breadcrumb` attribute of General Commissioning -/
+  | bcw (s v : Nat)
+  /-- an interaction over session `s` that does not touch the administrative state (handler-level
+  path: group key map / binding / user label / node label writes, subscribe): only the IM prologue runs -/
+  | ext (s : Nat)
+  /-- a fabric-scoped write whose content the model does not track (group key map): the fabric record
+  is stored, or the store is deferred, exactly as for an ACL write -/
+  | fwrite (s : Nat)
   | tick (secs : Nat)
   | poll
   | flush
@@ -169,6 +183,20 @@ inductive Op
   | kvfail (n : Nat)
   | corrupt
   | freset
+  /-- CASE handshake up to and including Sigma3: the reserved session carries the CASE mode already -/
+  | hs (fab node rid : Nat)
+  /-- the last message of that handshake is acknowledged: the `ReservedSession` guard is dropped -/
+  | hsdone (sid : Nat)
+  /-- the node restarts and `Matter::factory_reset` runs BEFORE `Matter::startup`; then start-up -/
+  | coldreset
+  /-- the fabric blob `i` is damaged, restart (start-up fails), factory reset, restart -/
+  | fabrecover (i : Nat)
+  /-- an operation on objects of its own (TLV round trip of a persisted structure): the node is untouched -/
+  | nop
+  /-- `Sessions::remove` from outside the administrative logic: the subscription reporter gives up on
+  a report to a subscriber that does not answer and drops the session it used (im.rs,
+  `process_subscriptions`, the `Err` branch) -/
+  | sdrop (sid : Nat)
 deriving Repr, DecidableEq, Inhabited
 
 /-! ## the store -/
@@ -279,14 +307,19 @@ def armedFor (n : Node) (idx : Nat) : Bool :=
   | some a => a.fab == idx
   | none => false
 
-/-- `MatterState::purge_resumption_for_fabric`: drop the records of a gone fabric and, if there were
-any, store the purged cache at once.  `false` = the store call failed. -/
+/-- `FailSafe::defers_store_for` when it answers `true`: the context remembers the deferred change -/
+def markDeferred (n : Node) : Node :=
+  match n.fs with
+  | some a => { n with fs := some { a with deferred := true } }
+  | none => n
+
+/-- `MatterState::purge_resumption_for_fabric`: drop the records of a gone fabric and store the
+purged cache at once - also when the in-memory cache held none of them (the STORED blob might: an
+earlier store of the purged cache failed, or the records were evicted).  `false` = the store call failed. -/
 def purgeResum (n : Node) (idx : Nat) : Node × Bool :=
-  if n.resum.any (fun r => r.fab = idx) then
-    let n := { n with resum := n.resum.filter (fun r => r.fab ≠ idx) }
-    let (n, bad) := kvTick n
-    if bad then (n, false) else (kvCommit n { n.kv with resum := .recs n.resum }, true)
-  else (n, true)
+  let n := { n with resum := n.resum.filter (fun r => r.fab ≠ idx) }
+  let (n, bad) := kvTick n
+  if bad then (n, false) else (kvCommit n { n.kv with resum := .recs n.resum }, true)
 
 /-- the fabric part of `FailSafe::expire`:
 `if fabrics.get(fab_idx).is_some() { fabrics.remove(fab_idx)? }; fabrics.add_load(fab_idx, kv)?` -/
@@ -479,7 +512,10 @@ def sessOp (cfg : Cfg) (n : Node) (sid : Nat) (mode : Mode) : Op → Node × Sta
         match checkState a mode (fun f => f.root && f.addCsr) (fun f => f.addNoc || f.updCsr || f.updNoc) true with
         | some e => (n, .err e)
         | none =>
-          if !isNodeId subj then (n, .err "NocInvalidAdminSubject")
+          -- failsafe.rs `add_noc`: the context holds deferred changes of the existing fabric it is
+          -- bound to - no re-binding
+          if a.fab ≠ 0 && a.deferred then (n, .err "Busy")
+          else if !isNodeId subj then (n, .err "NocInvalidAdminSubject")
           else if ca ≠ n.staged then (n, .err "NocInvalidNoc")
           else if n.fabrics.any (fun f => f.fid = fid && f.ca = n.staged) then (n, .err "NocFabricConflict")
           else
@@ -532,7 +568,7 @@ def sessOp (cfg : Cfg) (n : Node) (sid : Nat) (mode : Mode) : Op → Node × Sta
         else
           let f' := { f with acl := f.acl ++ [v] }
           let n := setFabric n f'
-          if armedFor n f.idx then ok n
+          if armedFor n f.idx then ok (markDeferred n)
           else match storeFabric n f' with
             | (n, true) => ok n
             | (n, false) => (n, .err "NoSpace")
@@ -545,7 +581,7 @@ def sessOp (cfg : Cfg) (n : Node) (sid : Nat) (mode : Mode) : Op → Node × Sta
         else
           let f' := if f.grp.contains v then f else { f with grp := f.grp ++ [v] }
           let n := setFabric n f'
-          if armedFor n f.idx then ok n
+          if armedFor n f.idx then ok (markDeferred n)
           else match storeFabric n f' with
             | (n, true) => ok n
             | (n, false) => (n, .err "NoSpace")
@@ -558,7 +594,7 @@ def sessOp (cfg : Cfg) (n : Node) (sid : Nat) (mode : Mode) : Op → Node × Sta
       | some f =>
         let f' := { f with label := v }
         let n := setFabric n f'
-        if armedFor n f.idx then ok n
+        if armedFor n f.idx then ok (markDeferred n)
         else match storeFabric n f' with
           | (n, true) => ok n
           | (n, false) => (n, .err "NoSpace")
@@ -576,7 +612,9 @@ def sessOp (cfg : Cfg) (n : Node) (sid : Nat) (mode : Mode) : Op → Node × Sta
       if n.nets.contains v then ok { n with nets := n.nets.filter (· ≠ v), managed := false }
       else (n, .err "neterr")
   | .complete _ =>
-    -- gen_comm.rs:482: disarm, close the window, drop PASE, THEN store the fabric, THEN the networks
+    -- gen_comm.rs:491: the fabric, then the networks are stored FIRST; only then the fail-safe is
+    -- disarmed, the window closed and the PASE sessions dropped.  A failing store answers the error
+    -- with the fail-safe still armed.
     match checkArmed n mode with
     | some e => (n, .err e)
     | none =>
@@ -584,38 +622,54 @@ def sessOp (cfg : Cfg) (n : Node) (sid : Nat) (mode : Mode) : Op → Node × Sta
       else match getFabric n mode.fab with
         | none => (n, .err "NotFound")
         | some f =>
-          let n := { n with fs := none, bc := 0, window := none, sessions := removePase n.sessions none }
           match storeFabric n f with
           | (n, false) => (n, .err "NoSpace")
           | (n, true) =>
-            let n := { n with managed := true }
-            match storeNets n with
-            | (n, false) => (n, .err "NoSpace")
-            | (n, true) => ok n
+            match storeNets { n with managed := true } with
+            | (n1, false) => ({ n1 with managed := n.managed }, .err "NoSpace")
+            | (n1, true) =>
+              ok { n1 with fs := none, bc := 0, window := none, sessions := removePase n1.sessions none }
   | .rmfab _ idx =>
-    -- noc.rs:687: memory first (fabric, sessions), the purged resumption cache, then the fabric key
+    -- noc.rs:698: the store first (the purged resumption cache, then the fabric key), then the
+    -- fabric table and the sessions: a failing store leaves the fabric fully in place
     if idx = 0 then (n, .err "ConstraintError")
     else if hasFabric n idx then
-      let exp := if mode.fab = idx then some sid else none
-      let n := { n with fabrics := n.fabrics.filter (fun f => f.idx ≠ idx),
-                        sessions := removeForFabric n.sessions idx exp }
       match purgeResum n idx with
       | (n, false) => (n, .err "NoSpace")
       | (n, true) =>
         match removeFabricKey n idx with
-        | (n, true) => ok n
         | (n, false) => (n, .err "NoSpace")
+        | (n, true) =>
+          let exp := if mode.fab = idx then some sid else none
+          ok { n with fabrics := n.fabrics.filter (fun f => f.idx ≠ idx),
+                      sessions := removeForFabric n.sessions idx exp }
     else (n, .err "InvalidFabricIndex")
   | .revoke _ =>
     -- adm_comm.rs:255
     match expire cfg n (some sid) with
     | (n, some e) => (n, .err e)
     | (n, none) => ok { n with window := none }
+  | .bcw _ v =>
+    -- gen_comm.rs:282 `set_breadcrumb`: no fail-safe check; reset by disarm / expiry
+    ok { n with bc := v }
+  | .ext _ => ok n
+  | .fwrite _ =>
+    -- grp_key_mgmt.rs:193 `set_group_key_map`: change, then `persist.store` unless armed for this fabric
+    if mode.fab = 0 then (n, .err "UnsupportedAccess")
+    else match getFabric n mode.fab with
+      | none => (n, .err "NotFound")
+      | some f =>
+        let n := setFabric n f
+        if armedFor n f.idx then ok (markDeferred n)
+        else match storeFabric n f with
+          | (n, true) => ok n
+          | (n, false) => (n, .err "NoSpace")
   | _ => (n, .err "bad")
 
 def isSessOp : Op → Option Nat
   | .openW s | .arm s _ | .csr s _ | .root s _ | .addnoc s _ _ _ _ _ | .updnoc s _ _ | .acl s _
-  | .grp s _ | .label s _ | .net s _ | .rmnet s _ | .complete s | .rmfab s _ | .revoke s => some s
+  | .grp s _ | .label s _ | .net s _ | .rmnet s _ | .complete s | .rmfab s _ | .revoke s
+  | .bcw s _ | .ext s | .fwrite s => some s
   | _ => none
 
 def step (cfg : Cfg) (n : Node) (op : Op) : Node × Status :=
@@ -625,7 +679,9 @@ def step (cfg : Cfg) (n : Node) (op : Op) : Node × Status :=
     -- and an expired session accepts no new exchange (session.rs:540)
     match getSess n sid with
     | none => (n, .err "nosess")
-    | some _ =>
+    | some s0 =>
+      -- a reserved session takes no incoming message (`Session::is_for_rx`)
+      if s0.reserved then (n, .err "reserved") else
       match checkTimeouts cfg n (some sid) with
       | (n, some e) => (n, .err ("pre:" ++ e))
       | (n, none) =>
@@ -659,6 +715,37 @@ def step (cfg : Cfg) (n : Node) (op : Op) : Node × Status :=
         else match addSess cfg n (.case r.fab) r.peer r.gen with
           | (n, some id) => ({ n with resum := resumInsert cfg n.resum { r with rid := newRid } }, .sess id)
           | (n, none) => (n, .err "NoSpaceSessions")
+    | .hs fab node rid =>
+      -- responder.rs:430-482: `update_with_state` + the resumption record under one state lock,
+      -- `complete()`; the guard lives until the final status report is acknowledged (`hsdone`)
+      match (if fab = 0 then none else getFabric n fab) with
+      | none => (n, .err "nofab")
+      | some f =>
+        match addSess cfg n (.case fab) node f.gen with
+        | (n, some id) =>
+          ({ n with sessions := n.sessions.map (fun s => if s.id = id then { s with reserved := true } else s),
+                    resum := resumInsert cfg n.resum { fab := fab, peer := node, rid := rid, gen := f.gen },
+                    pending := n.pending ++ [id] }, .sess id)
+        | (n, none) => (n, .err "NoSpaceSessions")
+    | .hsdone sid =>
+      -- `ReservedSession::drop` of a completed guard: the session, if it is still there, becomes a regular one
+      if n.pending.contains sid then
+        ok { n with pending := n.pending.filter (· ≠ sid),
+                    sessions := n.sessions.map (fun s => if s.id = sid then { s with reserved := false } else s) }
+      else (n, .err "nohs")
+    | .coldreset =>
+      -- new `Matter` (nothing loaded), `factory_reset` (lib.rs:621: `Fabrics::reset_persist` removes
+      -- the keys 1..=255 whatever the table holds, then the other keys), the network key, `startup`:
+      -- nothing is left; the harness starts a new store history here
+      ok { now := n.now, nextGen := n.nextGen }
+    | .fabrecover _ =>
+      -- the same after a start-up that failed on a damaged fabric blob
+      ok { now := n.now, nextGen := n.nextGen }
+    | .nop => ok n
+    | .sdrop sid =>
+      match getSess n sid with
+      | none => (n, .err "nosess")
+      | some _ => ok { n with sessions := n.sessions.filter (fun s => s.id ≠ sid) }
     | .tick secs => ok { n with now := n.now + secs }
     | .poll =>
       match checkTimeouts cfg n none with
@@ -714,7 +801,7 @@ def Sess.canon (s : Sess) : String :=
   let m := match s.mode with
     | .pase f => s!"p{f}"
     | .case f => s!"c{f}"
-  s!"{s.id}:{m}:{s.peer}{if s.expired then ":x" else ""}"
+  s!"{s.id}:{m}:{s.peer}{if s.expired then ":x" else ""}{if s.reserved then ":r" else ""}"
 
 def canonResum (l : List Resum) : String := joinWith ";" (l.map (fun r => s!"{r.fab}.{r.peer}.{r.rid}"))
 
@@ -734,7 +821,7 @@ def KV.canon (kv : KV) : String :=
 def Node.dump (n : Node) : String :=
   let fs := match n.fs with
     | none => "idle"
-    | some a => s!"{a.fab}.{a.flags.bits}.{a.timeout}"
+    | some a => s!"{a.fab}.{a.flags.bits}.{a.timeout}{if a.deferred then ".d" else ""}"
   let w := match n.window with
     | none => "-"
     | some w => toString w.opener
